@@ -44,6 +44,26 @@ def monitor(src, blk, rng):
     return None
 
 
+def entryloop_grid():
+    """Every arrangement of a loop whose head is the function's first instruction, once per run (the random
+    shapes meet a given arrangement only now and then: seed C04-f needs 'branch back to the function's own
+    label' x 'value read only by the next iteration' x 'closed by a conditional branch')."""
+    out = []
+    for own in (True, False):
+        for fill in (True, False):
+            for whileform in (True, False):
+                target = "fn0" if own else "eloop_1"
+                ls = [".data", "buf: .word 1, 2, 3, 4, 5, 6, 7, 8", ".text", "main:",
+                      "    la a0, buf" if fill else "    li a0, 2", "    li a1, 5", "    jal fn0",
+                      "    li a7, 93", "    ecall", "fn0:"] + ([] if own else ["eloop_1:"])
+                ls += ["    sb zero, 0(a0)", "    addi a0, a0, 1"] if fill else ["    add a0, a0, a1"]
+                ls += ["    addi a1, a1, -1"]
+                ls += ["    blez a1, edone_1", f"    j {target}", "edone_1:"] if whileform else [f"    bgtz a1, {target}"]
+                ls += (["    li a0, 0"] if fill else []) + ["    ret"]
+                out.append("\n".join(ls) + "\n")
+    return out
+
+
 def run(res, tier, seed):
     rng = random.Random(seed)
     proof_ok = proof_stage(res, "Rva.Proofs.C04b", THEOREMS, extra_modules=["Rva.Proofs.C04", "Rva.Proofs.C05", "Rva.Proofs.C05b"])
@@ -59,6 +79,7 @@ def run(res, tier, seed):
         srcs.append(text)
         for k, v in st.items():
             agg[k] = agg.get(k, 0) + v
+    srcs += entryloop_grid()
     inputs = [[("m.s", s)] for s in srcs]
     impl, models, bad = correspondence("cfg,lints,run", inputs)
     first = None
